@@ -26,12 +26,13 @@ type HarnessFile struct {
 }
 
 type Harness struct {
-	Func   string
-	Pkg    string
-	Covers []string // cover labels that must be reached (vacuity witnesses)
-	Tiers  []string // tiers it runs in (empty = all)
-	Panics bool     // a panic escaping the harness is a violation
-	Seq    bool     // run `go` statements synchronously
+	Func      string
+	Pkg       string
+	Covers    []string // cover labels that must be reached (vacuity witnesses)
+	Tiers     []string // tiers it runs in (empty = all)
+	Panics    bool     // a panic escaping the harness is a violation
+	Seq       bool     // run `go` statements synchronously
+	MapOrders []string // //gosym:maporders: functions whose small map ranges run in every order
 }
 
 type HarnessSet struct {
@@ -72,6 +73,10 @@ func LoadHarnessFiles(paths []string) (*HarnessSet, error) {
 					case "seqgo":
 						pending.Seq = true
 					}
+				}
+			case strings.HasPrefix(line, "//gosym:maporders "):
+				if pending != nil {
+					pending.MapOrders = append(pending.MapOrders, strings.Fields(strings.TrimPrefix(line, "//gosym:maporders "))...)
 				}
 			case strings.HasPrefix(line, "//gosym:cover "):
 				if pending != nil {
@@ -157,6 +162,7 @@ func (s *Session) Explore(h Harness) (*Report, error) {
 		return nil, fmt.Errorf("harness %s not found in %s", h.Func, h.Pkg)
 	}
 	s.Engine.SeqGo = h.Seq
+	s.Engine.MapOrders = h.MapOrders
 	rep := s.Engine.Explore(fn)
 	for _, c := range h.Covers {
 		if rep.Covers[c] == 0 {
@@ -332,7 +338,17 @@ func (s *Session) ValidatePaths(h Harness, rep *Report, max int) (*ValidationRes
 		}
 		res.Checked++
 		p := sums[i]
-		if m := comparePath(p, o); m != "" {
+		m := comparePath(p, o)
+		// a path with map-order decisions cannot be steered natively (Go
+		// picks the order): re-run it a few times before calling it a mismatch
+		for try := 0; m != "" && p.MapOrders > 0 && try < 12; try++ {
+			again, err := s.RunNative(h.Pkg, cases[i:i+1], dir)
+			if err != nil || len(again) != 1 {
+				break
+			}
+			m = comparePath(p, again[0])
+		}
+		if m != "" {
 			if len(res.Mismatches) < 10 {
 				res.Mismatches = append(res.Mismatches, fmt.Sprintf("%s (decisions %s; values %v): %s", cases[i].ID, decisionsString(p.Decisions), cases[i].Values, m))
 			}
